@@ -26,6 +26,7 @@ type world struct {
 	c     Case
 	names []string
 	scope *slip.Scope
+	first []slip.Object // per flavor: the instance made right after its defflavor
 }
 
 func (w *world) defflavor(i int) string {
@@ -130,7 +131,7 @@ func (w *world) send(inst slip.Object, msg string, x int) (ev.Outcome, []string)
 }
 
 // checkSends verifies both messages on an instance of every defined flavor.
-func (w *world) checkSends(defined []bool, live []int, at int, st *stats) string {
+func (w *world) checkSends(defined []bool, live []int, at int, last bool, st *stats) string {
 	for f := range w.c.Flavors {
 		if !defined[f] {
 			continue
@@ -146,40 +147,51 @@ func (w *world) checkSends(defined []bool, live []int, at int, st *stats) string
 				return fmt.Sprintf("after %s: (make-instance '%s) => %s", w.history(at), w.names[f], mk)
 			}
 			e := expectSend(w.c, f, msg, 0, live)
-			out, tr := w.send(mk.Val, msg, 0)
-			st.sends++
-			where := func() string {
-				how := "send"
-				if w.c.Bound {
-					how = "BoundReceive"
+			targets := []slip.Object{mk.Val}
+			if last && !e.none && w.first[f] != nil {
+				// also the instance made right after the defflavor, before any later method existed
+				targets = append(targets, w.first[f])
+			}
+			for ti, target := range targets {
+				out, tr := w.send(target, msg, 0)
+				st.sends++
+				where := func() string {
+					how := "send"
+					if w.c.Bound {
+						how = "BoundReceive"
+					}
+					which := "a new instance"
+					if ti > 0 {
+						which = "the instance made right after the defflavor"
+					}
+					return fmt.Sprintf("after %s: %s :%s 0 to %s of %s (precedence %s)", w.history(at), how, msg, which, w.names[f], w.precNames(f))
 				}
-				return fmt.Sprintf("after %s: %s :%s 0 to an instance of %s (precedence %s)", w.history(at), how, msg, w.names[f], w.precNames(f))
-			}
-			if e.none {
-				if out.Kind != ev.Condition {
-					return fmt.Sprintf("%s: no method is defined in the precedence, expected a condition, got %s trace [%s]", where(), out, strings.Join(tr, " "))
+				if e.none {
+					if out.Kind != ev.Condition {
+						return fmt.Sprintf("%s: no method is defined in the precedence, expected a condition, got %s trace [%s]", where(), out, strings.Join(tr, " "))
+					}
+					if len(tr) != 0 {
+						return fmt.Sprintf("%s: no method is defined in the precedence, yet methods ran: [%s]", where(), strings.Join(tr, " "))
+					}
+					continue
 				}
-				if len(tr) != 0 {
-					return fmt.Sprintf("%s: no method is defined in the precedence, yet methods ran: [%s]", where(), strings.Join(tr, " "))
+				st.handled++
+				if e.nWhop > st.maxWhop {
+					st.maxWhop = e.nWhop
 				}
-				continue
-			}
-			st.handled++
-			if e.nWhop > st.maxWhop {
-				st.maxWhop = e.nWhop
-			}
-			if e.nBefore+e.nAfter > st.maxDaemons {
-				st.maxDaemons = e.nBefore + e.nAfter
-			}
-			if out.Kind != ev.Value {
-				return fmt.Sprintf("%s: expected trace [%s], got %s trace [%s]", where(), strings.Join(e.trace, " "), out, strings.Join(tr, " "))
-			}
-			if got, want := strings.Join(tr, " "), strings.Join(e.trace, " "); got != want {
-				return fmt.Sprintf("%s: expected trace [%s], got [%s]", where(), want, got)
-			}
-			if e.value != "" {
-				if got := sx.Text(out.Val); got != e.value {
-					return fmt.Sprintf("%s: expected value %s, got %s", where(), e.value, got)
+				if e.nBefore+e.nAfter > st.maxDaemons {
+					st.maxDaemons = e.nBefore + e.nAfter
+				}
+				if out.Kind != ev.Value {
+					return fmt.Sprintf("%s: expected trace [%s], got %s trace [%s]", where(), strings.Join(e.trace, " "), out, strings.Join(tr, " "))
+				}
+				if got, want := strings.Join(tr, " "), strings.Join(e.trace, " "); got != want {
+					return fmt.Sprintf("%s: expected trace [%s], got [%s]", where(), want, got)
+				}
+				if e.value != "" {
+					if got := sx.Text(out.Val); got != e.value {
+						return fmt.Sprintf("%s: expected value %s, got %s", where(), e.value, got)
+					}
 				}
 			}
 		}
@@ -354,7 +366,7 @@ func run(c Case) *h.Result {
 		return h.Fail("not a legal history: %s", why)
 	}
 	id := atomic.AddInt64(&ctr, 1)
-	w := &world{c: c, scope: slip.NewScope()}
+	w := &world{c: c, scope: slip.NewScope(), first: make([]slip.Object, len(c.Flavors))}
 	for i := range c.Flavors {
 		w.names = append(w.names, fmt.Sprintf("c11x%dz%d", id, i))
 	}
@@ -390,11 +402,14 @@ func run(c Case) *h.Result {
 		}
 		if f < nf {
 			defined[f] = true
+			if mk := w.make(f, ""); mk.Kind == ev.Value {
+				w.first[f] = mk.Val
+			}
 		} else {
 			live[f-nf] = p
 		}
 		if c.Mid || p == len(c.Order)-1 {
-			if msg := w.checkSends(defined, live, p, &st); msg != "" {
+			if msg := w.checkSends(defined, live, p, p == len(c.Order)-1, &st); msg != "" {
 				res.Err = msg
 				return res
 			}
@@ -739,7 +754,7 @@ func TestC11(t *testing.T) {
 	h.Assume("vt:mark (harness primitive) records the daemon that runs; Instance.SlotValue reads an instance variable")
 	h.Assume("undefflavor / Package.Remove are used only to discard the flavors of a finished case (names are never reused)")
 
-	h.RunProp(t, history, h.N(6000, 150000))
+	h.RunProp(t, history, h.N(20000, 150000))
 	if os.Getenv("C11_NOENUM") != "" { // development aid
 		return
 	}
